@@ -13,7 +13,7 @@ use crate::sched::{self, SimCfg, Strategy};
 use crate::sendable::Sendable;
 use crate::tracked::{self, T24, Zst};
 use crate::{RunResult, alloc, viol};
-use roto::{FileTree, List, NoCtx, Package, RotoString, Runtime, TypedFunc, Val, Verdict, library};
+use roto::{Context, Ctx, FileTree, List, NoCtx, Package, RotoString, Runtime, TypedFunc, Val, Verdict, library};
 use serde::{Deserialize, Serialize};
 use std::cell::RefCell;
 use std::collections::{BTreeMap, HashMap};
@@ -45,7 +45,48 @@ pub struct ConcDesc {
     pub schedule: Option<Vec<u8>>,
 }
 
-pub const FN_NAMES: [&str; 12] = ["a1", "s1", "o1", "r1", "e1", "l1", "l2", "c1", "h1", "re1", "fm", "sb1"];
+pub const FN_NAMES: [&str; 14] = ["a1", "s1", "o1", "r1", "e1", "l1", "l2", "c1", "h1", "re1", "fm", "sb1", "cx", "cs"];
+
+/// Context type of the second runtime: every call brings its own context.
+#[derive(Clone, Context)]
+pub struct CallCtx {
+    pub base: u64,
+    pub tag: Val<T24>,
+    pub name: RotoString,
+}
+
+fn ctx_runtime() -> Runtime<Ctx<CallCtx>> {
+    Runtime::from_lib(library! {
+        #[clone] type Tr = Val<T24>;
+        fn val(t: Val<T24>) -> u64 {
+            let p = payload_of(&t.0, "host function val() received a tracked value that is not alive");
+            host("val", p);
+            p
+        }
+        fn log(x: u64) {
+            host("log", x);
+        }
+    })
+    .expect("runtime")
+    .with_context_type::<CallCtx>()
+    .expect("context type")
+}
+
+pub fn ctx_corpus(p: &[u64]) -> String {
+    let p5 = p[4];
+    format!(
+        r#"fn cx(x: u64) -> u64 {{
+    log(x);
+    let t = tag;
+    x * {p5} + base + val(t) + val(tag)
+}}
+fn cs(x: u64) -> String {{
+    let n = name;
+    f"{{n}}-{{base}}-{{x}}"
+}}
+"#
+    )
+}
 
 #[derive(Clone, Debug, PartialEq, Serialize, Deserialize)]
 pub enum CallRes {
@@ -213,6 +254,8 @@ pub enum Fx {
     S(TypedFunc<NoCtx, fn(RotoString, u64) -> RotoString>),
     O(TypedFunc<NoCtx, fn(Val<T24>, u64) -> Option<Val<T24>>>),
     V(TypedFunc<NoCtx, fn(u64) -> Verdict<u64, ()>>),
+    CU(TypedFunc<Ctx<CallCtx>, fn(u64) -> u64>),
+    CS(TypedFunc<Ctx<CallCtx>, fn(u64) -> RotoString>),
 }
 
 impl Fx {
@@ -237,14 +280,26 @@ impl Fx {
                 Verdict::Accept(v) => CallRes::Verd(Some(v)),
                 Verdict::Reject(()) => CallRes::Verd(None),
             },
+            Fx::CU(f) => {
+                let mut c = CallCtx { base: 1000 + x % 7, tag: Val(T24::new(600 + x % 5)), name: RotoString::from(format!("n{}", x % 3)) };
+                CallRes::Num(f.call(&mut c, x))
+            }
+            Fx::CS(f) => {
+                let mut c = CallCtx { base: 1000 + x % 7, tag: Val(T24::new(600 + x % 5)), name: RotoString::from(format!("n{}", x % 3)) };
+                let r = f.call(&mut c, x);
+                let s: &str = r.as_ref();
+                CallRes::Text(s.to_string())
+            }
         }
     }
 }
 
-fn load(pkg: &mut Package<NoCtx>) -> Result<Vec<Arc<Sendable<Fx>>>, String> {
+fn load(pkg: &mut Package<NoCtx>, pkg2: &mut Package<Ctx<CallCtx>>) -> Result<Vec<Arc<Sendable<Fx>>>, String> {
     let mut v = Vec::new();
     for (i, n) in FN_NAMES.iter().enumerate() {
         let fx = match i {
+            12 => pkg2.get_function(n).map(Fx::CU).map_err(|e| e.to_string()),
+            13 => pkg2.get_function(n).map(Fx::CS).map_err(|e| e.to_string()),
             0 | 5 | 7 | 8 | 9 => pkg.get_function(n).map(Fx::U).map_err(|e| e.to_string()),
             3 | 4 | 6 => pkg.get_function(n).map(Fx::TU).map_err(|e| e.to_string()),
             1 | 11 => pkg.get_function(n).map(Fx::S).map_err(|e| e.to_string()),
@@ -518,10 +573,11 @@ pub fn execute(d: &ConcDesc, keep_trace: bool) -> RunResult {
         );
     } else {
         // ---- setup on the main thread: runtime, corpus, shared handles, solo runs
-        let shared: Arc<Mutex<(Option<Sendable<Runtime<NoCtx>>>, Option<Sendable<Package<NoCtx>>>)>> = Arc::new(Mutex::new((None, None)));
+        #[allow(clippy::type_complexity)]
+        let shared: Arc<Mutex<(Option<Sendable<(Runtime<NoCtx>, Runtime<Ctx<CallCtx>>)>>, Option<Sendable<(Package<NoCtx>, Package<Ctx<CallCtx>>)>>)>> = Arc::new(Mutex::new((None, None)));
         let mut fns: Vec<Arc<Sendable<Fx>>> = Vec::new();
         let handles_ok = crate::is_send_sync!(TypedFunc<NoCtx, fn(u64) -> u64>) && crate::is_send_sync!(TypedFunc<NoCtx, fn(Val<T24>, u64) -> Option<Val<T24>>>);
-        let owners_ok = crate::is_send_sync!(Runtime<NoCtx>) && crate::is_send_sync!(Package<NoCtx>);
+        let owners_ok = crate::is_send_sync!(Runtime<NoCtx>) && crate::is_send_sync!(Package<NoCtx>) && crate::is_send_sync!(Runtime<Ctx<CallCtx>>) && crate::is_send_sync!(Package<Ctx<CallCtx>>);
         if !handles_ok {
             viol::record("handle-not-send-sync", "TypedFunc is not Send + Sync in this tree: a function handle cannot be sent to and called from several threads");
         }
@@ -529,20 +585,23 @@ pub fn execute(d: &ConcDesc, keep_trace: bool) -> RunResult {
         {
             let _rg = alloc::ModeGuard::new(alloc::MODE_RUN);
             let rt = main_runtime();
+            let rt2 = ctx_runtime();
             let src = corpus(&d.params);
-            let pkg = {
+            let src2 = ctx_corpus(&d.params);
+            let (pkg, pkg2) = {
                 let _cg = alloc::ModeGuard::new(alloc::MODE_COMPILE);
-                FileTree::test_file("corpus", &src, 0).compile(&rt)
+                (FileTree::test_file("corpus", &src, 0).compile(&rt), FileTree::test_file("ctxcorpus", &src2, 0).compile(&rt2))
             };
-            match pkg {
-                Ok(mut pkg) => match load(&mut pkg) {
+            match (pkg, pkg2) {
+                (Ok(mut pkg), Ok(mut pkg2)) => match load(&mut pkg, &mut pkg2) {
                     Ok(f) => {
                         fns = f;
-                        *shared.lock().unwrap() = (Some(Sendable(rt)), Some(Sendable(pkg)));
+                        *shared.lock().unwrap() = (Some(Sendable((rt, rt2))), Some(Sendable((pkg, pkg2))));
                     }
                     Err(e) => viol::record("get-function-failed", e),
                 },
-                Err(e) => viol::record("compile-failed", format!("corpus: {}", report_text(&e))),
+                (Err(e), _) => viol::record("compile-failed", format!("corpus: {}", report_text(&e))),
+                (_, Err(e)) => viol::record("compile-failed", format!("context corpus: {}", report_text(&e))),
             }
             if !viol::any() {
                 *REENTER.lock().unwrap() = Some(fns[0].clone());
